@@ -143,6 +143,7 @@ func runC11(c *Ctx) {
 	ruleP4c(c)
 	ruleP8(c, "P8", 80)
 	ruleB1(c, "P9", 2)
+	ruleP10(c, "P10")
 	// ---- P6 ---------------------------------------------------------------------
 	for _, fn := range c.moduleFuncs() {
 		for _, s := range recoverLostSites(c, fn) {
